@@ -13,6 +13,7 @@ package main
 import (
 	"strconv"
 	"strings"
+	"unicode"
 	"unicode/utf8"
 )
 
@@ -21,7 +22,13 @@ const nul = "\x00"
 type env struct {
 	g    []string
 	keys map[string]string
+	id   *ctx // identity of a top-level match (nil in sub-contexts): key of the memo below
 }
+
+// memo of the model's value of shared sub-programs (the inner chain of the
+// two-operation programs is the same *Node for every outer operation)
+var refMemo = map[*Node]map[*ctx]acc{}
+var refMemoSize int
 
 type acc struct {
 	vals   []string
@@ -96,6 +103,7 @@ func lift(args []acc, f func(v []string) acc) acc {
 			// whichever marker the argument produced, it is an ordinary
 			// string for the helper that consumes it
 			a.anyErr = false
+			a.vals = append([]string{}, a.vals...)
 			a.add(acc{vals: errorMarkers})
 			args[i] = a
 		}
@@ -186,7 +194,23 @@ func ref(n *Node, e env) acc {
 	case "cat":
 		return lift(refAll(n.A, e), func(v []string) acc { return one(strings.Join(v, "")) })
 	case "call":
-		return refCall(n, e)
+		if e.id == nil {
+			return refCall(n, e)
+		}
+		if m, ok := refMemo[n]; ok {
+			if a, ok := m[e.id]; ok {
+				return a
+			}
+		} else {
+			if refMemoSize > 200000 {
+				refMemo, refMemoSize = map[*Node]map[*ctx]acc{}, 0
+			}
+			refMemo[n] = map[*ctx]acc{}
+		}
+		a := refCall(n, e)
+		refMemo[n][e.id] = a
+		refMemoSize++
+		return a
 	}
 	panic("bad node")
 }
@@ -197,6 +221,20 @@ func refAll(ns []*Node, e env) []acc {
 		out[i] = ref(n, e)
 	}
 	return out
+}
+
+func upperKeepingBytes(s string) string {
+	var sb strings.Builder
+	for i := 0; i < len(s); {
+		r, w := utf8.DecodeRuneInString(s[i:])
+		if r == utf8.RuneError && w == 1 {
+			sb.WriteByte(s[i])
+		} else {
+			sb.WriteRune(unicode.ToUpper(r))
+		}
+		i += w
+	}
+	return sb.String()
 }
 
 func atoi(s string) (int, bool) {
@@ -220,7 +258,11 @@ func refCall(n *Node, e env) acc {
 	switch n.S {
 	// ---- the scalar helpers used inside sub-expressions ----
 	case "upper":
-		return lift(refAll(n.A, e), func(v []string) acc { return one(strings.ToUpper(v[0])) })
+		// bytes that are not UTF-8 may be kept or replaced (strings.ToUpper
+		// replaces them); that is a matter of the scalar helper, not of C17
+		return lift(refAll(n.A, e), func(v []string) acc {
+			return acc{vals: []string{strings.ToUpper(v[0]), upperKeepingBytes(v[0])}}
+		})
 	case "len":
 		// bytes or characters: the documentation says "length of a string"
 		return lift(refAll(n.A, e), func(v []string) acc {
